@@ -371,6 +371,20 @@ def override_case(V, spec, P, St, C, cfg):
     V.check('override_reaches_named_only', not wrong and tpath in found,
             lambda: ('schema override for %s (via %s): default of S.n per process (42 = overridden)' % (target, via),
                      {'.'.join(p): d for p, d in found.items()}))
+    # a composer configured with a _schema of its own, generated at two paths; a later override names one of them
+    comp2 = C(dict(cfg, _schema={'p0': {'S': {'n': {'_emit': False}}}}))
+    full = Composite({})
+    full.merge(composite=comp2.generate(path=('a',)))
+    full.merge(composite=comp2.generate(path=('b',)))
+    before = copy.deepcopy(comp2.schema_override)
+    full.merge(schema_override={'a': {'p0': {'S': {'n': {'_default': 42}}}}})
+    da = full['processes']['a']['p0'].get_schema()['S']['n']
+    db = full['processes']['b']['p0'].get_schema()['S']['n']
+    dl = comp2.generate()['processes']['p0'].get_schema()['S']['n']
+    V.check('override_reaches_named_only', da.get('_default') == 42 and db.get('_default') == 1 and dl.get('_default') == 1 and
+            comp2.schema_override == before,
+            lambda: ('an override naming a/p0 also reached b/p0, the composer\'s own _schema or a later generate()',
+                     da, db, dl, comp2.schema_override))
 
 
 def _first_diff(a, b):
